@@ -25,7 +25,7 @@ def valid_trees(seed, n, salt="trees", **opt):
         rem = G.remaining_for(r, t)
         if rem:
             t["remaining"] = rem
-        tz = r.choice([0, 0, 0, 1, 2, 5])
+        tz = r.choice([0, 0, 0, 1, 2, 5, 0, 0, 1, 2, 5, 255, 256, 300, 1000])
         raw = G.encode(t, trailing_zeros=tz)
         meta["tz"] = tz
         meta["remaining"] = len(rem)
